@@ -4,6 +4,7 @@ position (`step_own`), hence along every history (`run_own`); initial states; wh
 container drop achieves.
 -/
 import HipVerif.Lemmas.SlotsThin
+import HipVerif.Lemmas.SlotsIter
 namespace HipVerif.Slots
 
 variable {fl : Bool}
